@@ -317,6 +317,60 @@ def r6_loop_wiring(ctx):
                               f"one controller round with two assignments and two events: violated — {what}; observed act{[[vkey(x) for x in a] for a in acts]} "
                               f"plan{[[vkey(x)[:40] for x in a] for a in plans]} notify{[[vkey(x)[:30] for x in a] for a in nt]} order {order}")
     ctx.floor("C03.R6.paths", n, 1)
+    # the scheduler is initialised with exactly the outputs the job asks for
+    seen = {}
+    job = Obj("cascade.low.core.JobInstance", {"ext_outputs": [ds("MID", "T1"), ds("END", "T2")], "tasks": {}, "edges": [], "serdes": {}}, name="JOB")
+
+    def init(run, a, k, n, f):
+        seen["args"] = (list(a), dict(k))
+        return Sym("state")
+    ip = Interp(repo, inline=PRED, max_while=0, call_models={**models, "cascade.scheduler.api.initialize": init,
+                                                           "cascade.low.views.sinks": lambda run, a, k, n, f: {ds("END", "T2")}})
+    ip.explore(fi, env={"state.computable": 0, "state.ongoing_total": 0, "state.outputs": {}}, args={"job": job})
+    got = None
+    if "args" in seen:
+        a_, k_ = seen["args"]
+        got = k_.get("outputs", a_[2] if len(a_) > 2 else None)
+    if not isinstance(got, (set, frozenset, list, tuple)) or {getattr(x, "name", vkey(x)) for x in got} != {"MID", "END"}:
+        ctx.violation("C03.R6", fi.qual, loc(fi), "requested outputs handed to the scheduler",
+                      f"job.ext_outputs = [MID (has consumers), END (a sink)]: initialize is given outputs {vkey(got)[:100]}; expected both — a requested dataset that is "
+                      f"dropped here is never fetched and is purged once its last consumer completed")
+    else:
+        ctx.ok("C03.R6", loc(fi), "initialize receives every dataset of job.ext_outputs")
+    # the assignment generator is run to exhaustion: it updates its bookkeeping for an assignment only when it is resumed after the yield
+    import ast as _ast
+    n_loops = 0
+    sites = [(f2, node) for f2 in repo.all_funcs() if f2.module.name.startswith("cascade.controller") for node in walk_scope(f2.node)
+             if isinstance(node, _ast.For) and isinstance(node.iter, _ast.Call) and (repo.resolve_expr(f2.module, node.iter.func) or "").endswith("scheduler.api.assign")]
+    for f2, node in sites:
+        if True:
+            n_loops += 1
+            esc = [x for x in _own_loop_body(node) if isinstance(x, (_ast.Break, _ast.Return))]
+            if esc:
+                ctx.violation("C03.R6", f2.qual, loc(f2, esc[0]), "assignment generator exhausted",
+                              f"the loop over assign(...) can be left early (line {esc[0].lineno}): the generator pops the task / worker of an assignment only when it is "
+                              f"resumed after the yield, so the last assignment taken is acted upon while its task stays computable and its worker idle — dispatched again next round")
+            else:
+                ctx.ok("C03.R6", loc(f2, node), "the loop over assign(...) always runs the generator to exhaustion")
+    ctx.floor("C03.R6.assign_loops", n_loops, 1)
+
+
+def _own_loop_body(loop):
+    """statements of a loop body that belong to this loop (not to nested loops / functions)"""
+    import ast as _ast
+    out = []
+    todo = list(loop.body)
+    while todo:
+        x = todo.pop()
+        out.append(x)
+        for ch in _ast.iter_child_nodes(x):
+            if isinstance(ch, (_ast.For, _ast.While, _ast.FunctionDef, _ast.AsyncFunctionDef, _ast.Lambda, _ast.ClassDef)):
+                if isinstance(ch, (_ast.For, _ast.While)):
+                    # a return inside a nested loop still leaves the outer loop
+                    out.extend(y for y in _ast.walk(ch) if isinstance(y, _ast.Return))
+                continue
+            todo.append(ch)
+    return out
 
 
 RULES.append(r6_loop_wiring)
@@ -356,3 +410,64 @@ RULES += [r7_migration_rows, r6_fetch_queue, r7_available_writers, r10_one_round
 
 from .common import lazy  # noqa: E402
 RULES.append(lazy("C16", "r1_projections", "the preschedule's edge maps: a consumer missing from them lands in no component / is never made computable"))
+RULES.append(lazy("sched", "r_assignment_outputs", "completion of a task is inferred from the publication of its last output: every output must be published"))
+RULES.append(lazy("C02", "r6_worker_deferral", "a worker that forgets an arrived dataset leaves a later task sequence waiting for ever"))
+
+
+def r8_initial_state_owned(ctx):
+    """C03.R8: the run-time state that the controller *consumes* (purging_tracker, the per-component missing-input sets) is a private copy:
+    it shares no set object with the Preschedule it was built from (a Preschedule is computed once and may serve several runs; the
+    second run would start with every consumer already 'removed' and nothing beyond the sources ever becomes computable)."""
+    repo = ctx.repo
+    fi = repo.func("cascade.scheduler.api.initialize")
+    ctx.analysed(fi.qual)
+    from .common import dsid
+    T1, T2 = "t1", "t2"
+    D = dsid(T1, "0")
+    eo_set, ei_set = {T2}, {D}
+    core = Obj("cascade.scheduler.core.ComponentCore", {"nodes": [T1, T2], "sources": [T1], "distance_matrix": {}, "value": {}, "depth": 2}, name="CORE")
+    pre = Obj("cascade.scheduler.core.Preschedule", {"components": [core], "edge_o": {D: eo_set}, "edge_i": {T1: set(), T2: ei_set}, "task_o": {T1: {D}, T2: set()}}, name="PRE")
+    envm = Obj("cascade.low.core.Environment", {"workers": {}}, name="ENVM")
+    paths = Interp(repo, max_iter=2, inline={"cascade.scheduler.core.ComponentCore.weight"}).explore(fi, env={"preschedule": pre}, args={"environment": envm, "outputs": set()})
+    ctx.evals(len(paths))
+    n = 0
+    for p in paths:
+        if p.exit[0] != "return" or not isinstance(p.exit[1], Obj):
+            continue
+        n += 1
+        st_ = p.exit[1]
+        pre2 = p.heap.get("preschedule") if isinstance(p.heap.get("preschedule"), Obj) else None
+        fields = {**st_.kwargs, **st_.fields}
+        pt = fields.get("purging_tracker")
+        src = pre2.fields["edge_o"] if pre2 is not None else None
+        if not isinstance(pt, dict) or not isinstance(src, dict):
+            ctx.undecided("C03.R8", loc(fi), f"cannot read purging_tracker / edge_o of the initial state: {vkey(pt)[:80]}")
+            continue
+        shared = [k for k, v in pt.items() if any(v is sv for sv in src.values())]
+        eo_state = fields.get("edge_o")
+        if isinstance(eo_state, dict):
+            shared += [k for k, v in pt.items() if any(v is sv for sv in eo_state.values())]
+        if shared or {k: set(v) for k, v in pt.items()} != {k: set(v) for k, v in src.items()}:
+            ctx.violation("C03.R8", fi.qual, loc(fi), "purging tracker is a private copy",
+                          f"State.purging_tracker = {vkey(pt)[:100]} built from Preschedule.edge_o = {vkey(src)[:100]}: "
+                          f"{'the consumer sets are the very same objects (' + vkey(shared) + ')' if shared else 'contents differ'} — notify() removes consumers from the tracker "
+                          f"as tasks complete, which would also empty the preschedule's (and the state's own) consumer map")
+        else:
+            ctx.ok("C03.R8", loc(fi), "purging_tracker: equal to edge_o in content, sharing no set object with it")
+        comps = fields.get("components")
+        ei_src = pre2.fields["edge_i"]
+        if isinstance(comps, list) and comps and isinstance(comps[0], Obj) and isinstance(comps[0].fields.get("is_computable_tracker"), dict):
+            trk = comps[0].fields["is_computable_tracker"]
+            sh = [k for k, v in trk.items() if any(v is sv for sv in ei_src.values())]
+            if sh or {k: set(v) for k, v in trk.items()} != {k: set(v) for k, v in ei_src.items()}:
+                ctx.violation("C03.R8", fi.qual, loc(fi), "missing-input tracker is a private copy",
+                              f"is_computable_tracker = {vkey(trk)[:100]} built from Preschedule.edge_i = {vkey(ei_src)[:100]}: "
+                              f"{'shares the input sets of ' + vkey(sh) if sh else 'contents differ'} — consider_computable removes inputs from it as datasets are published")
+            else:
+                ctx.ok("C03.R8", loc(fi), "is_computable_tracker: equal to edge_i in content, sharing no set object with it")
+        else:
+            ctx.undecided("C03.R8", loc(fi), f"cannot read the component's is_computable_tracker: {vkey(comps)[:100]}")
+    ctx.floor("C03.R8.paths", n, 1)
+
+
+RULES.append(r8_initial_state_owned)
